@@ -20,12 +20,18 @@ fn synthetic(ctx: &Ctx) -> Vec<Base> {
     let mut out = Vec::new();
     let cell = |a: u64, v: Felt| AddrValue { address: fu(a), value: v };
     let hdr = |s: u64, n: u64, h: Felt, p: Felt| ContinuousPageHeader { start_address: fu(s), size: fu(n), hash: h, prod: p };
-    let pages: Vec<Vec<AddrValue>> = vec![vec![], vec![cell(1, r.felt())], vec![cell(1, r.felt()), cell(2, Felt::ZERO), cell(3, r.felt())]];
+    let mut pages: Vec<Vec<AddrValue>> = vec![vec![], vec![cell(1, r.felt())], vec![cell(1, r.felt()), cell(2, Felt::ZERO), cell(3, r.felt())]];
+    // a page of 200 cells (the shipped proofs of this build may all have short pages): anything that treats long
+    // pages differently (batched hashing, fingerprints of already hashed pages) is reached by the same edits
+    pages.push((0..200u64).map(|i| cell(1 + i, if i % 17 == 3 { Felt::ZERO } else { r.felt() })).collect());
     let hdrs: Vec<Vec<ContinuousPageHeader>> = vec![vec![], vec![hdr(100, 3, r.felt(), r.felt())], vec![hdr(100, 3, r.felt(), r.felt()), hdr(200, 1, r.felt(), r.felt())]];
     for (pi, pg) in pages.into_iter().enumerate() {
         for (hi, hs) in hdrs.iter().enumerate() {
             for dynp in [false, true] {
                 if dynp && (pi != 1 || hi > 1) {
+                    continue;
+                }
+                if pi == 3 && hi > 1 {
                     continue;
                 }
                 let dp = if dynp { Some(DynamicParams::from((0..340usize).map(|i| i % 7).collect::<Vec<_>>())) } else { None };
@@ -224,7 +230,7 @@ pub fn run(ctx: &Ctx) -> Report {
     let mut rep = Report::new(
         "C13",
         "exploration",
-        "public inputs = honest ones of this Stone version + synthetic small ones (0/1/3 main-page cells, 0-2 continuous-page \
+        "public inputs = honest ones of this Stone version + synthetic ones (0/1/3/200 main-page cells, 0-2 continuous-page \
          headers, dynamic parameters present/absent), each with every single-field edit (+1, 0/1, + a high power of two, swap with the same field of the \
          next vector element), main-page cell insertion at every position / deletion / adjacent transposition, header insertion / \
          deletion, friendly-layer count +-1 (Stone 6); oracle: over the WHOLE explored set, unequal inputs (header `prod` excluded) \
@@ -300,7 +306,18 @@ pub fn run(ctx: &Ctx) -> Report {
             };
             let list = edits(&b.value);
             let stride = (list.len() / if ctx.quick() { 100 } else { 400 }).max(1); // at most ~100 (400) edits per base
-            for e in list.iter().step_by(stride) {
+            // the strided sample, plus - always - a few edits that keep the page's length and the sums of its addresses
+            // and values (transposed cells at the start, in the middle and at the end): what a cheap fingerprint of an
+            // already hashed page cannot tell apart
+            let n_cells = base_pi.main_page.0.len();
+            let keep: Vec<usize> = vec![0, 1, n_cells / 3, n_cells / 2, n_cells.saturating_sub(3), n_cells.saturating_sub(2)];
+            let chosen: Vec<&Edit> = list
+                .iter()
+                .enumerate()
+                .filter(|(i, e)| i % stride == 0 || matches!(e, Edit::TransposeCells(j) if keep.contains(j)) || matches!(e, Edit::TransposeHeaders(0)))
+                .map(|(_, e)| e)
+                .collect();
+            for e in chosen {
                 let (v, f) = match apply_edit(&b.value, &b.n_friendly, e) {
                     Some(x) => x,
                     None => continue,
